@@ -55,6 +55,7 @@ def run(prog, tier):
     fam.cli_roles(R, prog, P, MEMBERS, 10)
     table = builder_table(prog)
     fam.borrow(R, P, "MECHANISM", prog, c04.check_thresholds, table, floor=8)
+    fam.borrow(R, P, "MECHANISM", prog, c04.check_builder_paths, table, floor=14)
     fam.borrow(R, P, "MECHANISM", prog, c04.check_add_linear, floor=4)
     fam.borrow(R, P, "MECHANISM", prog, c04.check_parity, floor=1)
     fam.borrow(R, P, "MECHANISM", prog, c04.check_forbid_bits, floor=1)
